@@ -22,7 +22,7 @@ use crate::{
     addresses::PublicAddresses,
     codec::ProtocolCodec,
     crypto::ed25519::Keypair,
-    error::{AddressError, DialError, Error},
+    error::{AddressError, DialError, Error, NegotiationError},
     executor::Executor,
     protocol::{InnerTransportEvent, TransportService},
     transport::{
@@ -70,6 +70,10 @@ pub(crate) mod handle;
 #[cfg(litep2p_verif)]
 #[path = "../../verif/c16_manager.rs"]
 pub(crate) mod verif_c16;
+
+#[cfg(litep2p_verif)]
+#[path = "../../verif/c05.rs"]
+pub(crate) mod verif_c05;
 
 // TODO: https://github.com/paritytech/litep2p/issues/268 Periodically clean up idle peers.
 // TODO: https://github.com/paritytech/litep2p/issues/344 add lots of documentation
@@ -639,7 +643,11 @@ impl TransportManager {
             Protocol::Tcp(_) => match protocol_stack.next() {
                 #[cfg(feature = "websocket")]
                 Some(Protocol::Ws(_)) | Some(Protocol::Wss(_)) => SupportedTransport::WebSocket,
-                Some(Protocol::P2p(_)) => SupportedTransport::Tcp,
+                // The transport dials (and verifies) the peer of the first `/p2p` component while
+                // the dial record below is kept for the peer of the last one: only accept the
+                // address if the two are the same component.
+                Some(Protocol::P2p(_)) if protocol_stack.next().is_none() =>
+                    SupportedTransport::Tcp,
                 _ =>
                     return Err(Error::TransportNotSupported(
                         address_record.address().clone(),
@@ -845,7 +853,8 @@ impl TransportManager {
     ) -> crate::Result<ConnectionEstablishedResult> {
         self.update_address_on_connection_established(peer, endpoint);
 
-        if let Some(dialed_peer) = self.pending_connections.remove(&endpoint.connection_id()) {
+        let dialed_peer = self.pending_connections.remove(&endpoint.connection_id());
+        if let Some(dialed_peer) = dialed_peer {
             if dialed_peer != peer {
                 tracing::warn!(
                     target: LOG_TARGET,
@@ -868,6 +877,15 @@ impl TransportManager {
                 ?error,
                 "connection limit exceeded, rejecting connection",
             );
+
+            // A rejected outbound connection concludes the dial attempt: clear the dial record,
+            // otherwise the peer stays in the dialing state and can never be dialed again.
+            if dialed_peer.is_some() {
+                let mut peers = self.peers.write();
+                let context = peers.entry(peer).or_default();
+                context.state.on_dial_failure(endpoint.connection_id());
+            }
+
             return Ok(ConnectionEstablishedResult::Reject);
         }
 
@@ -1273,6 +1291,9 @@ impl TransportManager {
                         TransportEvent::ConnectionEstablished { peer, endpoint } => {
                             self.opening_errors.remove(&endpoint.connection_id());
 
+                            // Whether this connection concludes a dial attempt of the manager.
+                            let dialed = self.pending_connections.contains_key(&endpoint.connection_id());
+
                             match self.on_connection_established(peer, &endpoint) {
                                 Err(error) => {
                                     tracing::debug!(
@@ -1341,6 +1362,30 @@ impl TransportManager {
                                         .get_mut(&transport)
                                         .expect("transport to exist")
                                         .reject(endpoint.connection_id());
+
+                                    // The dial attempt ended without a connection: report it as
+                                    // a dial failure instead of staying silent.
+                                    if dialed {
+                                        let address = endpoint.address().clone();
+
+                                        for context in self.protocols.values() {
+                                            let event = InnerTransportEvent::DialFailure {
+                                                peer,
+                                                addresses: vec![address.clone()],
+                                            };
+                                            if let Err(error) = context.tx.try_send(event) {
+                                                let _ = context.tx.send(error.into_inner()).await;
+                                            }
+                                        }
+
+                                        return Some(TransportEvent::DialFailure {
+                                            connection_id: endpoint.connection_id(),
+                                            address,
+                                            error: DialError::NegotiationError(
+                                                NegotiationError::StateMismatch,
+                                            ),
+                                        });
+                                    }
                                 }
                             }
                         }
